@@ -37,7 +37,8 @@ _TMP = {}
 
 def tmpfile(n):
     if n not in _TMP:
-        fd, p = tempfile.mkstemp(prefix="c02-", suffix=".bin")
+        # workers put their files into the scratch directory the parent made (and removes) for this run
+        fd, p = tempfile.mkstemp(prefix="c02-", suffix=".bin", dir=os.environ.get("VERIF_C02_SCRATCH") or None)
         os.write(fd, data_of(n))
         os.close(fd)
         _TMP[n] = p
@@ -558,15 +559,15 @@ def run(ctx):
     ]
     bound = 1 if ctx.quick else 2
     cs = cases(ctx.quick)
+    import shutil
+    scratch = tempfile.mkdtemp(prefix="verif-c02-", dir="/dev/shm" if os.path.isdir("/dev/shm") else None)
+    os.environ["VERIF_C02_SCRATCH"] = scratch       # inherited by the forked workers
     try:
         for part in ctx.pmap(_job, [(c, bound) for c in cs]):
             ctx.merge(part)
     finally:
-        for p in _TMP.values():
-            try:
-                os.unlink(p)
-            except OSError:
-                pass
+        shutil.rmtree(scratch, ignore_errors=True)
+        os.environ.pop("VERIF_C02_SCRATCH", None)
     ctx.notes["deviation_bound"] = bound
     ctx.notes["scenarios"] = len(cs)
 
